@@ -48,6 +48,10 @@ var hotTurtle = []string{
 var hotNQ = []string{"<", ">", "\"", "\\", " ", "\t", "\r", "\n", ".", "_", ":", "_:", "@", "^", "^^", "#", "-", "u", "U", "\\u0041", "\\U0010FFFF", "\\uD800", "{", "}", "|", "`", "\x00", "\x7f", "\xc3", "\xf0\x9f", "<http://e/>", "<rel>", "_:b", "\"x\"@en", "\"x\"^^<a:t>", "@en-"}
 
 func hotFor(format string) []string {
+	return append(hotOf(format), "\xef\xbb\xbf", "\u00a0", "\u2028")
+}
+
+func hotOf(format string) []string {
 	switch format {
 	case "jsonld":
 		return hotJSONLD
